@@ -111,6 +111,17 @@ def oracle_views(wl, d):
         nested = wl.get_list(col=l)
         if len(nested) != len(wl._array) or sorted(x for x in nested if x != 0) != sorted(exp):
             return 'get_list(col) (with gaps) inconsistent'
+        # entry lists: one value per row id of the id list, in the same order - also when the value itself is 0, '' or an empty list
+        for E in hdr:
+            if E in ('doculect', 'concept'):
+                continue
+            for kw in ({'col': l}, {'language': l}, {'taxa': l}):
+                ef = wl.get_list(entry=E, flat=True, **kw)
+                if ef != [wl[x, E] for x in got]:
+                    return 'get_list(%r, entry=%r, flat) = %r, but rows %r carry %r' % (kw, E, ef, got, [wl[x, E] for x in got])
+                en = wl.get_list(entry=E.upper(), **kw)
+                if en != [(wl[x, E] if x != 0 else 0) for x in nested]:
+                    return 'get_list(%r, entry=%r) = %r does not match the id list %r' % (kw, E.upper(), en, nested)
     for c in wl.rows:
         got = wl.get_list(row=c, flat=True)
         exp = [k for k in ids if str(rows[k][ci]) == c]
@@ -121,6 +132,16 @@ def oracle_views(wl, d):
             return 'get_dict(row=%r) inconsistent' % c
         if wl.get_list(concept=c, flat=True) != got or wl.get_dict(concept=c) != gd:
             return 'alias keyword concept= differs from row='
+        for E in hdr:
+            if E in ('doculect', 'concept'):
+                continue
+            ef = wl.get_list(row=c, entry=E, flat=True)
+            if ef != [wl[x, E] for x in got]:
+                return 'get_list(row=%r, entry=%r, flat) = %r, but rows %r carry %r' % (c, E, ef, got, [wl[x, E] for x in got])
+            en = wl.get_list(row=c, entry=E)
+            ids2 = wl.get_list(row=c)
+            if en != [[(wl[x, E] if x != 0 else 0) for x in line] for line in ids2]:
+                return 'get_list(row=%r, entry=%r) does not match the id table' % (c, E)
     # column access by name / alias, lower and upper case
     for k in ids[:5]:
         for name in hdr:
